@@ -145,8 +145,11 @@ GcStep ==
   /\ LET task == Head(gcq) IN
      /\ gcq' = Tail(gcq)
      /\ IF task.op = "remove"
-        THEN /\ DoRemove(task.id)
-             /\ gone' = IF task.id \in Ids THEN gone \cup {task.id} ELSE gone
+        THEN \* the id may have been removed and imported again as another frame: only what is still an
+             \* expired time-TTL frame is collected
+             IF task.id \in Ids /\ Expired(task.id, stream[task.id], clock)
+             THEN DoRemove(task.id) /\ gone' = gone \cup {task.id}
+             ELSE UNCHANGED <<stream, idxT, idxC, contexts, gone>>
         ELSE LET es == {e \in idxT : e[1] = task.ctx /\ e[2] = task.topic}
                  ids == {e[3] : e \in es}
                  victims == (ids \ NewestK(ids, task.keep)) \cap Ids
